@@ -13,6 +13,13 @@ evaluator draws the very same samples).
     names, write order, loaded parameters and metadata / logger calls — all against the probe's record;
   * correspondence: the same observables against the extracted Coq model (Callbacks.ev_run, ev_get_value,
     os_get, obs_csv_body, sv_fit, store_get, lg_run, cbs_run, ev_run_stream) fed with the probe's record.
+Not demanded (histogram keys "info:..." only): what happens for invalid indices, untracked metric / statistic names
+(which exception class, or the empty array before anything is recorded), extra keys in saved files, how often a metadata
+callable is invoked.  Loggers are exercised in three forms (scripted msg_gen + logger_fn, Logger(period) printing the default
+text, default msg_gen with a custom logger_fn); for the default text only the number of lines and the first integer of each
+line (the epoch) are looked at.  Every metric session also carries a LambdaCallback() with no hooks and one with only some
+hooks.  Session kinds are interleaved and at least MIN_PER_KIND sessions of every kind run before the time budget may skip
+anything; skipped counts go to the evidence (histogram + assumptions).
 """
 import os, csv, json, math, itertools, time
 import numpy as np
@@ -39,16 +46,30 @@ def codes(s):
 
 
 def res(fn, conv=lambda x: x):
+    """[0, value] or [1, code of the exception class] (9 = any other class); never re-raises"""
     try:
         return [0, conv(fn())]
-    except tuple(ERR) as e:
+    except Exception as e:
         for k, c in ERR.items():
             if type(e) is k:
                 return [1, c]
         for k, c in ERR.items():
             if isinstance(e, k):
                 return [1, c]
-        raise
+        return [1, 9]
+
+
+def info(ctx, key, ok):
+    """behaviour the property does not constrain (exception classes, invalid indices, untracked names):
+    recorded in the evidence histogram, never an alarm"""
+    ctx.count("info:%s:%s" % (key, "as-model" if ok else "differs"))
+
+
+def subdict(a, b):
+    return isinstance(b, dict) and all(k in b and b[k] == v for k, v in a.items())
+
+
+LAST_OUT = [""]
 
 
 def canon(x):
@@ -135,10 +156,12 @@ def classes():
 
     class DirProbe(CallbackBase):
         """lists a directory (name -> (mtime_ns, content hash)) at train start and at every epoch end"""
-        def __init__(self, folder):
+        def __init__(self, folder, saves=None):
             self.folder = folder
             self.prev = self.listing()
             self.writes = []        # file names in the order they were (re)written
+            self.saves = saves if saves is not None else []     # paths handed to torch.save (recorded by the harness)
+            self.k = 0
 
         def listing(self):
             import hashlib
@@ -151,9 +174,15 @@ def classes():
 
         def note(self):
             now = self.listing()
-            for f in sorted(now):
-                if f not in self.prev or self.prev[f] != now[f]:
-                    self.writes.append(f)
+            new = []
+            for path in self.saves[self.k:]:
+                if isinstance(path, (str, os.PathLike)) and os.path.dirname(os.path.realpath(path)) == os.path.realpath(self.folder):
+                    new.append(os.path.basename(path))
+            self.k = len(self.saves)
+            for f in sorted(now):       # fallback: anything that changed on disk by another route
+                if (f not in self.prev or self.prev[f] != now[f]) and f not in new:
+                    new.append(f)
+            self.writes += new
             self.prev = now
 
         def on_train_start(self, s):
@@ -164,10 +193,12 @@ def classes():
 
     class StubObs(ObservableBase):
         """observable whose statistics are scripted (a function of the session clock)"""
-        def __init__(self, name, clock, script):
+        def __init__(self, name, clock, script, conv=None, vconv=None):
             self.name = name
             self.symbol = name
             self.clock, self.script = clock, script
+            self.conv = conv or np.float64          # numeric type of the scripted mean / variance
+            self.vconv = vconv or np.float64
 
         def apply(self, nn_state, samples):
             return torch.zeros(samples.shape[0], dtype=torch.double)
@@ -175,7 +206,7 @@ def classes():
         def statistics_from_samples(self, nn_state, samples):
             m, v = self.script[self.clock.t % len(self.script)]
             n = len(samples)
-            return {"mean": np.float64(m), "variance": np.float64(v), "std_error": np.sqrt(np.float64(v) / n), "num_samples": n}
+            return {"mean": self.conv(m), "variance": self.vconv(v), "std_error": np.sqrt(np.float64(v) / n), "num_samples": n}
 
     def obs_wouldbe(observables, kwargs):
         def f(s):
@@ -208,8 +239,12 @@ def do_fit(ctx, what, case, s, extra, start, end, callbacks, stop):
     if stop is not None:
         cbs.append(C["StopAt"](stop[0], stop[1]))
     s.stop_training = False
-    ok, _ = ctx.call(what, case, lambda: s.fit(DATA, epochs=end, pos_batch_size=3, neg_batch_size=3, k=1, lr=0.1,
-                                                starting_epoch=start, callbacks=cbs, **extra))
+    import io, contextlib
+    buf = io.StringIO()
+    with contextlib.redirect_stdout(buf):
+        ok, _ = ctx.call(what, case, lambda: s.fit(DATA, epochs=end, pos_batch_size=3, neg_batch_size=3, k=1, lr=0.1,
+                                                    starting_epoch=start, callbacks=cbs, **extra))
+    LAST_OUT[0] = buf.getvalue()
     s.stop_training = False
     return ok
 
@@ -253,6 +288,17 @@ def metric_session(ctx, spec):
         return
     probe = C["Probe"](lambda st: {n: f(st, space=space) for n, f in metrics.items()})
     cbs = [clock, probe, me] if spec.get("probe_before", True) else [clock, me, probe]
+    # LambdaCallback with all hooks left at their defaults, and with only some hooks given (documented use)
+    from qucumber.callbacks import LambdaCallback
+    lam_seen = []
+    variant = spec["tseed"] % 3
+    lam = [LambdaCallback(on_epoch_end=lambda st, e: lam_seen.append(("ee", int(e)))),
+           LambdaCallback(on_train_start=lambda st: lam_seen.append(("ts",)), on_batch_end=lambda st, e, b: None,
+                          on_epoch_end=lambda st, e: lam_seen.append(("ee", int(e)))),
+           LambdaCallback(on_epoch_start=lambda st, e: None, on_epoch_end=lambda st, e: lam_seen.append(("ee", int(e))),
+                          on_train_end=lambda st: lam_seen.append(("te",)))][variant]
+    cbs = cbs + [LambdaCallback(), lam]
+    ctx.count("lambda_callback_variant:%d" % variant)
     exp_past, exp_log, mops = [], [], []
     fired_any = skipped_any = False
     for op in spec["ops"]:
@@ -263,9 +309,12 @@ def metric_session(ctx, spec):
         else:
             _, start, end, stop = op
             n0 = len(probe.events)
-            if not do_fit(ctx, "fit with MetricEvaluator", case, s, extra, start, end, cbs, stop):
+            if not do_fit(ctx, "fit with MetricEvaluator and LambdaCallbacks with default hooks", case, s, extra, start, end, cbs, stop):
                 return
             evs = probe.events[n0:]
+            ctx.require("a LambdaCallback given only some hooks sees every EpochEnd of the run",
+                        [x[1] for x in lam_seen if x[0] == "ee"] == [ev["epoch"] for ev in probe.events], case,
+                        {"seen": lam_seen[-12:], "epochs": [ev["epoch"] for ev in probe.events][-12:]})
             for ev in evs:
                 if ev["epoch"] % p == 0:
                     exp_past.append((ev["epoch"], ev["values"]))
@@ -305,7 +354,7 @@ def check_metric_state(ctx, case, me, names, p, exp_past, exp_log, mops, logf):
                 ctx.require("get_value(name, index) == value computed at that evaluation", r[0] == 0 and same_vals(r[1], want_i),
                             case, {"name": nm, "index": i, "got": canon(r), "want": canon(want_i)})
             else:
-                ctx.require("get_value with an out-of-range index raises IndexError", r == [1, 0], case, {"index": i, "got": canon(r)})
+                info(ctx, "get_value out-of-range index -> IndexError", r == [1, 0])
     want_last = exp_past[-1][1] if n else {}
     ctx.require("evaluator.last == values of the most recent evaluation",
                 list(me.last) == list(want_last) and same_vals(list(me.last.values()), list(want_last.values())), case,
@@ -319,23 +368,28 @@ def check_metric_state(ctx, case, me, names, p, exp_past, exp_log, mops, logf):
     ctx.require("CSV body == one row (epoch, values in field order) per evaluation", canon(body) == canon(want_body), case,
                 {"body": body, "want": want_body})
     # ---- correspondence with the model
-    queries = [[codes(nm), ([] if i is None else i)] for nm in names + ["zz"] for i in list(range(-n - 2, n + 2)) + [None]]
+    allq = [(nm, i) for nm in names + ["zz"] for i in list(range(-n - 2, n + 2)) + [None]]
+    vmask = [nm != "zz" and ((i is None and n > 0) or (i is not None and -n <= i < n)) for nm, i in allq]
+    queries = [[codes(nm), ([] if i is None else i)] for nm, i in allq]
     mod = ctx.get_model().call("c17_metric_session", p, [codes(x) for x in names], mops, queries)
+    implq = [res(lambda: me.get_value(nm, i) if i is not None else me.get_value(nm)) for nm, i in allq]
     impl = [len(me), [int(e) for e in me.epochs],
             [res(lambda: me[nm], canon) for nm in names],
             [[codes(k), float(v)] for k, v in me.last.items()],
             [[r[0], [cell_enc(x) for x in r[1:]]] for r in body],
-            [res(lambda: me.get_value(nm, i) if i is not None else me.get_value(nm))
-             for nm in names + ["zz"] for i in list(range(-n - 2, n + 2)) + [None]]]
-    ctx.agree_exact("MetricEvaluator accessors vs model", canon(impl), canon(mod), case)
-    # unknown names
-    r = res(lambda: me["zz"], canon)
-    ctx.require("unknown metric name: AttributeError once something is recorded, empty array before", r == ([1, 2] if n else [0, []]),
-                case, r)
+            [r for r, v in zip(implq, vmask) if v]]
+    modv = list(mod[:5]) + [[r for r, v in zip(mod[5], vmask) if v]]
+    ctx.agree_exact("MetricEvaluator accessors vs model", canon(impl), canon(modv), case)
+    # invalid indices / untracked names: not constrained by the property, histogram only
+    info(ctx, "get_value invalid index or untracked name (error kind)",
+         canon([r for r, v in zip(implq, vmask) if not v]) == canon([r for r, v in zip(mod[5], vmask) if not v]))
+    info(ctx, "array of an untracked name (AttributeError once recorded, empty before)",
+         res(lambda: me["zz"], canon) == ([1, 2] if n else [0, []]))
 
 
 # ------------------------------------------------------------------ ObservableEvaluator sessions
 STATQ = ["mean", "means", "variance", "variances", "std_error", "std_errors", "num_samples", "num_sample", "foo", "s"]
+STATQ_VALID = 7          # the first 7 are names of tracked statistics (or their plural aliases)
 
 
 def obs_session(ctx, spec):
@@ -412,7 +466,7 @@ def check_obs_state(ctx, case, oe, names, p, exp_past, exp_log, mops, logf):
                 ctx.require("get_value(name, index) == value computed at that evaluation", r[0] == 0 and same_vals(r[1], want_i),
                             case, {"name": nm, "index": i, "got": canon(r), "want": canon(want_i)})
             else:
-                ctx.require("get_value with an out-of-range index raises IndexError", r == [1, 0], case, {"index": i, "got": canon(r)})
+                info(ctx, "get_value out-of-range index -> IndexError", r == [1, 0])
     want_last = exp_past[-1][1] if n else {}
     ctx.require("evaluator.last == values of the most recent evaluation",
                 list(oe.last) == list(want_last) and all(same_vals(stats_list(oe.last[k]), stats_list(want_last[k])) for k in want_last),
@@ -428,7 +482,9 @@ def check_obs_state(ctx, case, oe, names, p, exp_past, exp_log, mops, logf):
                 {"body": body, "want": want_body})
     # ---- correspondence with the model
     idxs = list(range(-n - 2, n + 2)) + [None]
-    queries = [[codes(nm), ([] if i is None else i)] for nm in names + ["zz"] for i in idxs]
+    allq = [(nm, i) for nm in names + ["zz"] for i in idxs]
+    vmask = [nm != "zz" and ((i is None and n > 0) or (i is not None and -n <= i < n)) for nm, i in allq]
+    queries = [[codes(nm), ([] if i is None else i)] for nm, i in allq]
     mod = ctx.get_model().call("c17_obs_session", p, [codes(x) for x in names], mops, queries, [codes(q) for q in STATQ])
 
     def data_of(nm):
@@ -440,12 +496,26 @@ def check_obs_state(ctx, case, oe, names, p, exp_past, exp_log, mops, logf):
 
     def dict_enc(d):
         return [[codes(k), float(v)] for k, v in d.items()]
-    impl = [len(oe), [int(e) for e in oe.epochs], [data_of(nm) for nm in names],
+    implq = [res(lambda: oe.get_value(nm, i) if i is not None else oe.get_value(nm), dict_enc) for nm, i in allq]
+    NV = STATQ_VALID
+
+    def split_data(d, valid):
+        """keep the tracked statistic names (valid) or the others (not valid) of one observable's entry"""
+        if d[0] != 0:
+            return d
+        return [0, [r for k, r in enumerate(d[1]) if (k < NV) == valid]]
+    impl_data = [data_of(nm) for nm in names]
+    impl = [len(oe), [int(e) for e in oe.epochs], [split_data(d, True) for d in impl_data],
             [[codes(k), dict_enc(v)] for k, v in oe.last.items()],
             [[r[0], [cell_enc(x) for x in r[1:]]] for r in body],
-            [res(lambda: oe.get_value(nm, i) if i is not None else oe.get_value(nm), dict_enc) for nm in names + ["zz"] for i in idxs],
+            [r for r, v in zip(implq, vmask) if v],
             [codes(f) for f in fields[1:]]]
-    ctx.agree_exact("ObservableEvaluator accessors vs model", canon(impl), canon(mod), case)
+    modv = [mod[0], mod[1], [split_data(d, True) for d in mod[2]], mod[3], mod[4], [r for r, v in zip(mod[5], vmask) if v], mod[6]]
+    ctx.agree_exact("ObservableEvaluator accessors vs model", canon(impl), canon(modv), case)
+    info(ctx, "get_value invalid index or untracked name (error kind)",
+         canon([r for r, v in zip(implq, vmask) if not v]) == canon([r for r, v in zip(mod[5], vmask) if not v]))
+    info(ctx, "untracked statistic name (error kind)",
+         canon([split_data(d, False) for d in impl_data]) == canon([split_data(d, False) for d in mod[2]]))
 
 
 # ------------------------------------------------------------------ several evaluators in one list; stream form
@@ -510,17 +580,35 @@ def saver_session(ctx, spec):
                                                                            metadata=md, metadata_only=md_only))
     if not ok:
         return
-    dirp = C["DirProbe"](folder)
+    saves = []
+    orig_save = torch.save
+
+    def rec_save(obj, f, *a, **k):
+        saves.append(f)
+        return orig_save(obj, f, *a, **k)
+    dirp = C["DirProbe"](folder, saves)
     log_calls = []
     lg = Logger(spec["lg_period"], logger_fn=log_calls.append,
                 msg_gen=lambda state, epoch, **kw: (int(epoch), first_w(C["snapshot"](state)), sorted(kw.items())), tag=3)
-    cbs = [probe, sv, dirp, lg]
+    # default forms: Logger(period) prints msg_gen's default text; Logger(period, logger_fn=...) with the default msg_gen
+    lp_print, lp_text = 1 + (spec["tseed"] % 5), 1 + ((spec["tseed"] // 5) % 5)
+    text_calls, printed = [], []
+    lg_print = Logger(lp_print)
+    lg_text = Logger(lp_text, logger_fn=text_calls.append, tag=3)
+    cbs = [probe, sv, dirp, lg, lg_print, lg_text]
     want_writes = []        # (file name, sid, epoch argument) in order
     mfits = []
     fired_any = skipped_any = False
     for (_, start, end, stop) in spec["fits"]:
         n0, s0 = len(probe.events), len(probe.starts)
-        if not do_fit(ctx, "fit with ModelSaver (%s metadata)" % md_kind, case, s, extra, start, end, cbs, stop):
+        torch.save = rec_save
+        try:
+            okf = do_fit(ctx, "fit with ModelSaver (%s metadata) and Loggers (scripted and default forms)" % md_kind, case, s, extra,
+                         start, end, cbs, stop)
+        finally:
+            torch.save = orig_save
+        printed += [l for l in LAST_OUT[0].splitlines() if l.strip()]
+        if not okf:
             return
         if len(probe.starts) == s0:
             continue
@@ -543,9 +631,8 @@ def saver_session(ctx, spec):
         final[w[0]] = w
     ctx.require("the folder holds exactly the expected files", sorted(os.listdir(folder)) == sorted(final), case,
                 {"files": sorted(os.listdir(folder)), "want": sorted(final)})
-    if md_kind == "callable":
-        ctx.require("the metadata callable is called once per save with the epoch (0 for the initial save)",
-                    md_calls == [w[2] for w in want_writes], case, {"calls": md_calls, "want": [w[2] for w in want_writes]})
+    if md_kind == "callable":       # how often the callable is invoked is not constrained; what is saved is (below)
+        info(ctx, "metadata callable called once per save", md_calls == [w[2] for w in want_writes])
     ctx.require("the caller's metadata dict is not modified", the_dict == the_dict_copy, case, the_dict)
     has_ud = hasattr(s, "unitary_dict")
     impl_store = []
@@ -557,23 +644,33 @@ def saver_session(ctx, spec):
         snap = probe.snaps[sid]
         want_md = {"none": {}, "dict": the_dict_copy, "callable": {"epoch": ep, "sid": sid, "w": first_w(snap)}}[md_kind]
         if md_only:
-            ctx.require("metadata_only file holds exactly the requested metadata", obj == want_md, case, {"file": fname, "got": repr(obj)[:200]})
+            ctx.require("metadata_only file holds the requested metadata", subdict(want_md, obj), case, {"file": fname, "got": repr(obj)[:200]})
+            info(ctx, "metadata_only file holds nothing but the metadata", obj == want_md)
             got_md, full, got_sid = obj, 0, -1
         else:
-            want_keys = set(s.networks) | set(want_md) | ({"unitary_dict"} if has_ud else set())
-            ctx.require("saved file has the network entries and the requested metadata keys", set(obj) == want_keys, case,
-                        {"file": fname, "keys": sorted(obj), "want": sorted(want_keys)})
+            want_keys = set(s.networks) | set(want_md)
+            ctx.require("saved file has the network entries and the requested metadata keys", isinstance(obj, dict) and want_keys <= set(obj), case,
+                        {"file": fname, "keys": sorted(obj) if isinstance(obj, dict) else repr(obj)[:100], "want": sorted(want_keys)})
+            if not isinstance(obj, dict):
+                continue
+            info(ctx, "saved file has exactly networks + metadata (+ unitary_dict)",
+                 set(obj) == want_keys | ({"unitary_dict"} if has_ud else set()))
             same = all(net in obj and set(obj[net]) == set(snap[net]) and all(torch.equal(obj[net][k], snap[net][k]) for k in snap[net])
                        for net in s.networks)
             ctx.require("file named by epoch e loads back to the parameters at the end of epoch e (initial: at train start)", same, case,
                         {"file": fname, "epoch": ep})
             got_md = {k: v for k, v in obj.items() if k not in s.networks and k != "unitary_dict"}
-            ctx.require("saved metadata == requested metadata", got_md == want_md, case, {"file": fname, "got": repr(got_md)[:200], "want": repr(want_md)[:200]})
+            ctx.require("saved metadata == requested metadata", subdict(want_md, got_md), case, {"file": fname, "got": repr(got_md)[:200], "want": repr(want_md)[:200]})
             full = 1
             got_sid = next((j for j, sn in enumerate(probe.snaps)
                             if all(net in obj and all(torch.equal(obj[net][k], sn[net][k]) for k in sn[net]) for net in s.networks)), -2)
-        menc = [0] if got_md == {} else ([1] if got_md == the_dict_copy else
-                                         ([2, got_md.get("sid", -9), got_md.get("epoch", -9)] if isinstance(got_md, dict) else [9]))
+        # which metadata form the file carries (extra keys are ignored)
+        if isinstance(got_md, dict) and "sid" in got_md and "epoch" in got_md:
+            menc = [2, got_md["sid"], got_md["epoch"]]
+        elif subdict(the_dict_copy, got_md):
+            menc = [1]
+        else:
+            menc = [0] if isinstance(got_md, dict) else [9]
         fenc = [0] if fname == "ck_initial.pt" else [1, int(fname[3:-3])]
         impl_store.append((fenc, [[full, got_sid, menc]]))
     # ---- correspondence with the model
@@ -601,6 +698,23 @@ def saver_session(ctx, spec):
     modl = ctx.get_model().call("c17_logger_session", lp, fits_flat)
     ctx.agree_exact("Logger calls vs model", [[float(e), first_w(probe.snaps[int(sid)])] for sid, e in modl],
                     [[float(c[0]), c[1]] for c in log_calls], case)
+    # default forms: only the number of calls and the epochs named in the text are looked at (not the wording)
+    import re
+
+    def first_ints(lines):
+        out = []
+        for l in lines:
+            m = re.search(r"-?\d+", str(l))
+            out.append(int(m.group(0)) if m else None)
+        return out
+    for what, lines, lpx in (("Logger(period) with the default msg_gen and print", printed, lp_print),
+                             ("Logger(period, logger_fn=f, **kwargs) with the default msg_gen", text_calls, lp_text)):
+        want_e = [ev["epoch"] for ev in all_events if ev["epoch"] % lpx == 0]
+        got_e = first_ints(lines)
+        ctx.require(what + " logs once at every multiple of its period and at no other epoch",
+                    len(lines) == len(want_e) and (None in got_e or got_e == want_e), case,
+                    {"period": lpx, "lines": [str(l)[:40] for l in lines[:12]], "want_epochs": want_e})
+        ctx.agree_exact(what + ": number of calls vs model", len(lines), len(ctx.get_model().call("c17_logger_session", lpx, fits_flat)), case)
     ctx.case({"session": "saver", "state": spec["state"], "p": p, "init": save_initial, "md": md_kind, "md_only": md_only,
               "fits": spec["fits"], "tseed": spec["tseed"]}, nontrivial=fired_any and (p == 1 or skipped_any))
     ctx.count("saver:md=%s%s" % (md_kind, ",only" if md_only else "")); ctx.count("state:" + spec["state"])
@@ -677,11 +791,11 @@ def specs(ctx):
                 out.append(("saver", {"state": kind, "period": p, "save_initial": init, "md": md, "md_only": only, "fits": fits,
                                       "lg_period": int(rng.integers(1, 6)), "tseed": int(rng.integers(1 << 30))}))
     # the case of the repaired defect: dict metadata on a state with a unitary dictionary, several saves
-    out.append(("saver", {"state": "complex", "period": 1, "save_initial": True, "md": "dict", "md_only": False,
-                          "fits": [("fit", 1, 4, None), ("fit", 5, 6, None)], "lg_period": 2, "tseed": 11}))
-    out.append(("saver", {"state": "dm", "period": 2, "save_initial": True, "md": "dict", "md_only": False,
-                          "fits": [("fit", 1, 6, None)], "lg_period": 3, "tseed": 12}))
-    return out
+    fixed = [("saver", {"state": "complex", "period": 1, "save_initial": True, "md": "dict", "md_only": False,
+                        "fits": [("fit", 1, 4, None), ("fit", 5, 6, None)], "lg_period": 2, "tseed": 11}),
+             ("saver", {"state": "dm", "period": 2, "save_initial": True, "md": "dict", "md_only": False,
+                        "fits": [("fit", 1, 6, None)], "lg_period": 3, "tseed": 12})]
+    return fixed + out        # run() interleaves the kinds; these two are the first saver sessions
 
 
 RUNNERS = {"metric": metric_session, "obs": obs_session, "multi": multi_session, "saver": saver_session}
@@ -692,14 +806,46 @@ def norm_spec(spec):
     return json.loads(json.dumps(spec))
 
 
+def interleave(sp):
+    """round-robin over the session kinds, so that every kind of callback is exercised from the start"""
+    by = {}
+    for kind, spec in sp:
+        by.setdefault(kind, []).append((kind, spec))
+    order = ["saver", "metric", "obs", "multi"]
+    out, i = [], 0
+    while any(by.get(k) for k in order):
+        for k in order:
+            if i < len(by.get(k, [])):
+                out.append(by[k][i])
+        i += 1
+        if all(i >= len(by.get(k, [])) for k in order):
+            break
+    return out
+
+
+MIN_PER_KIND = 6
+
+
 def run(ctx):
     t0 = time.time()
     budget = 400 if ctx.thorough else 45
-    for kind, spec in specs(ctx):
-        if time.time() - t0 > budget:
-            ctx.count("skipped_time_budget")
+    done, skipped = {}, {}
+    for kind, spec in interleave(specs(ctx)):
+        if time.time() - t0 > budget and done.get(kind, 0) >= MIN_PER_KIND:
+            skipped[kind] = skipped.get(kind, 0) + 1
+            ctx.count("skipped_time_budget:" + kind)
             continue
         RUNNERS[kind](ctx, dict(norm_spec(spec), kind=kind))
+        done[kind] = done.get(kind, 0) + 1
+    for kind in RUNNERS:
+        ctx.count("sessions_executed:" + kind, done.get(kind, 0))
+        if done.get(kind, 0) == 0:
+            ctx.disagreements.append({"what": "coverage: no %s session was executed" % kind, "case": {}, "detail": "generator produced none"})
+    if skipped:
+        note = "time budget reached: sessions skipped per kind %s (executed %s)" % (json.dumps(skipped, sort_keys=True), json.dumps(done, sort_keys=True))
+        ctx.extra["skipped_by_time_budget"] = skipped
+        if note not in ASSUMPTIONS:
+            ASSUMPTIONS.append(note)
 
 
 def search(ctx, broken, budget):
